@@ -1076,6 +1076,26 @@ Proof.
   destruct (list_eq_dec N.eq_dec sig d) as [->|]; [|discriminate H]. repeat split. lia.
 Qed.
 
+(* ---------------- DHCPv6 proxy rewriting and giaddr / hops accessors ---------------- *)
+Lemma server_duid_loop_total : forall fuel i pkt, (N.to_nat (lenN pkt - i) < fuel)%nat -> safe (server_duid_loop fuel i pkt).
+Proof. fuel_ind fuel. intros i pkt Hf. cbn [server_duid_loop]. safe_tac. apply IH. lia. Qed.
+Lemma get_server_duid_total pkt : safe (get_server_duid pkt).
+Proof. unfold get_server_duid. safe_tac. apply server_duid_loop_total. unfold lenN. lia. Qed.
+Lemma replace_duid_loop_total : forall fuel i pkt duid, (N.to_nat (lenN pkt - i) < fuel)%nat -> safe (replace_duid_loop fuel i pkt duid).
+Proof. fuel_ind fuel. intros i pkt duid Hf. cbn [replace_duid_loop]. safe_tac. apply IH. lia. Qed.
+Lemma replace_server_duid_total pkt duid : safe (replace_server_duid pkt duid).
+Proof. unfold replace_server_duid. safe_tac. apply replace_duid_loop_total. unfold lenN. lia. Qed.
+(* IA options nest: the recursion (into the sub-options and on to the next option) always works on strictly shorter data *)
+Lemma rw6_total : forall fuel data pref valid, (length data < fuel)%nat -> safe (rw6 fuel data pref valid).
+Proof.
+  fuel_ind fuel. intros data pref valid Hf. cbn [rw6]. safe_tac; try (apply IH; unfold lenN in *; lia).
+Qed.
+Lemma rewrite_v6_lifetimes_total pkt pref valid : safe (rewrite_v6_lifetimes pkt pref valid).
+Proof. unfold rewrite_v6_lifetimes. safe_tac. apply rw6_total. lia. Qed.
+Lemma giaddr_hops_total pkt ip :
+  safe (get_giaddr pkt) /\ safe (set_giaddr pkt ip) /\ safe (get_hops pkt) /\ safe (incr_hops pkt).
+Proof. unfold get_giaddr, set_giaddr, get_hops, incr_hops. repeat split; safe_tac. Qed.
+
 (* ---------------- the driver-level statement ---------------- *)
 Lemma run_total entry na ba : safe (run Repaired entry na ba).
 Proof.
@@ -1090,7 +1110,9 @@ Proof.
                  |apply strip_option82_total|apply set_option4_total|apply get_option4_total
                  |apply parse_sub82_total|apply dhcp_parse_total|apply parse_message4_total
                  |apply attr80_window_total|apply is_authentic_reply_total|apply validate_request_auth_total
-                 |apply validate_message_auth_total|apply l2tp_dispatch_ppp_total|apply l2tp_dispatch_total|apply lns_run_total|apply cookie_validate_total|apply verify_challenge_total]
-            | cbv zeta; safe_tac; first [apply handle_frame_total|apply has_service_type_total|apply event_timestamp_total|apply ipoe_msg_type_total]]|]).
+                 |apply validate_message_auth_total|apply l2tp_dispatch_ppp_total|apply l2tp_dispatch_total|apply lns_run_total|apply cookie_validate_total|apply verify_challenge_total|apply get_server_duid_total|apply replace_server_duid_total
+                 |apply rewrite_v6_lifetimes_total]
+            | cbv zeta; safe_tac; first [apply (proj1 (giaddr_hops_total _ []))|apply (proj1 (proj2 (giaddr_hops_total _ _)))
+                 |apply (proj1 (proj2 (proj2 (giaddr_hops_total _ []))))|apply (proj2 (proj2 (proj2 (giaddr_hops_total _ []))))|apply handle_frame_total|apply has_service_type_total|apply event_timestamp_total|apply ipoe_msg_type_total]]|]).
   reflexivity.
 Qed.
